@@ -33,9 +33,27 @@ def demanded(sh, meta):
     return ("ok", es)
 
 
+def wrote(sh, meta, wins, truth):
+    """Readable account of the write probes of a wrongly accepted derivation: per position the field whose bytes the
+    returned optic wrote (from the compiler's offsets) next to the name that was given there."""
+    out = []
+    for i, w in enumerate(wins):
+        name = meta["names"][i] if i < len(meta["names"]) else None
+        given = "no name given" if name is None else "name %r (%s)" % (name, "unknown" if sh.first_by_key(name) is None else "field " + sel(sh, sh.first_by_key(name)["path"]))
+        hit = [sel(sh, p) for p, (off, sz, _) in truth.items() if sz > 0 and w == "%d,%d" % (off, off + sz)]
+        out.append("#%d %s -> bytes %s%s" % (i + 1, given, w, " = field " + "/".join(hit[:3]) if hit else ""))
+    return out
+
+
+def sel(sh, path):
+    return next((s for (p, s, _) in sh.paths if p == tuple(path)), str(path))
+
+
 def run(ctx):
     ctx.cov["rule"] = ("cases = derivation requests (ForProductN/ForSpectrumN by name / by type: controls, unknown or shadowed names, wrong focus types of the same kind, "
-                       "absent types, too few names, T=*S, non-struct T, foci inside pointer-embedded structs) and Reflector Gett/Putt calls with foreign dynamic values; "
+                       "absent types, too few names, T=*S, non-struct T, foci inside pointer-embedded structs; one unknown name at every position of a 2..9-name derivation whose focus type there is the "
+                       "type of the container's first field; 1..N-1 explicit names for N foci whose types all occur in the shape, named fields preferably not the first of their type) "
+                       "and Reflector Gett/Putt calls with foreign dynamic values; an accepted derivation of the last two classes is probed (Put on a guard-wrapped value, written window reported); "
                        "non-trivial = every request except the positive controls; distinct by (shape s-expression, request)")
     ctx.assumptions += ["gc/amd64 struct layout and reflect's field description are modelled (Model/Layout), validated against the compiler on every generated shape",
                         "type identity (String()== && AssignableTo) is equality of GoType descriptions whose defined types carry import path + name; a fraction of the shapes lists distinct types that reflect prints identically (same-named types of harness/pa/v1, pb/v1, pc/v1 and composites of them; no interface/channel kinds) - see distribution.colliding_types",
@@ -77,12 +95,22 @@ def run(ctx):
                 ctx.hist("arity", len(meta["types"]))
                 ctx.hist("outcome", res.split()[0] if res.startswith("panic") else "accepted")
                 ctx.hist("demanded", d[0] if d[0] != "defect" else d[1])
+                if meta["why"] == "unknown-name-first-type":
+                    ctx.hist("unknown_name_position_of_n", "%d/%d" % (meta["pos"] + 1, len(meta["types"])))
+                elif meta["why"] == "short-names-by-type-ok":
+                    ctx.hist("short_names_given_of_n", "%d/%d" % (len(meta["names"]), len(meta["types"])))
+                    ctx.hist("short_names_named_fields_not_first_of_their_type", meta["named_not_first_of_type"])
                 if res.startswith("panic"):
                     continue    # a panic at derivation time never contradicts C02 (a wrongly refused request shows up in the model diff and in C01)
                 wins = res.split()[1:]
                 if d[0] == "panic":
-                    ctx.violations.append(vlib.Violation("impl", "derivation silently accepted although the request has %s" % d[1], case=S.case_of(b, req, meta),
-                                                         expected="panic at derivation time", got=res, key={"class": "accepted-" + meta["why"]}))
+                    case, what = S.case_of(b, req, meta), "derivation silently accepted although the request has %s" % d[1]
+                    probe = b.chk.get(req)      # written windows of the accepted optics (new request classes only)
+                    if probe is not None:
+                        case["accepted_optics_write"], case["fields"] = probe, wrote(sh, meta, probe.split()[1:], truth)
+                        what += "; the returned optics write " + "; ".join(case["fields"])
+                    ctx.violations.append(vlib.Violation("impl", what[:600], case=case,
+                                                         expected="panic at derivation time", got=res + (" | " + probe if probe else ""), key={"class": "accepted-" + meta["why"]}))
                 elif d[0] == "defect":
                     e = next(x for x in d[2] if not x["value"])
                     w = wins[d[2].index(e)]
